@@ -22,7 +22,7 @@ Theorem event_order_strict_weak :
   (forall a b, ev_less b a = true <-> klt a b) /\
   (forall a, ~ klt a a) /\ (forall a b c, klt a b -> klt b c -> klt a c) /\
   (forall a b c, incomparable a b -> incomparable b c -> incomparable a c).
-Proof. exact (conj ev_less_klt (conj klt_irrefl (conj klt_trans incomparable_trans))). Qed.
+Proof. exact event_order_strict_weak_proof. Qed.
 Print Assumptions event_order_strict_weak.
 
 (* ... total on process resumptions with different insertion ids, where within one instant
@@ -30,9 +30,7 @@ Print Assumptions event_order_strict_weak.
 Theorem event_order_total_on_resumptions : forall a b,
   e_type a = SimProcResume -> e_type b = SimProcResume -> e_id a <> e_id b ->
   (klt a b \/ klt b a) /\ (stamp_eq a b -> (klt a b <-> (e_id a < e_id b)%N)).
-Proof.
-  exact (fun a b Ra Rb Hne => conj (klt_total_resume a b Ra Rb Hne) (klt_same_instant_resume a b Ra Rb)).
-Qed.
+Proof. exact event_order_total_on_resumptions_proof. Qed.
 Print Assumptions event_order_total_on_resumptions.
 Example event_order_total_on_resumptions_ex :
   klt (resume_event 1 0 AFTER 0 3 WkStable (ghost0 0)) (resume_event 1 0 AFTER 1 5 WkStable (ghost0 0)).
@@ -68,12 +66,7 @@ Theorem same_instant_fifo : forall cfg procs fiber tb s stk,
      (forall x, In x (s_queue s1) -> ~ klt x e) /\
      (exists q, s_queue s = e :: q \/ exists e2 r, s_queue s = e2 :: e :: r /\ incomparable e2 e
                                       /\ e_type e2 = ClockPinTrigger /\ e_type e = ClockPinTrigger)).
-Proof.
-  exact (fun cfg procs fiber tb s stk R =>
-           conj (reach_sorted cfg procs fiber tb (s, stk) R)
-                (conj (same_instant_fifo_proof cfg procs fiber tb s stk R)
-                      (fun e s1 P => pop_serves_first_proof cfg procs fiber tb s stk e s1 R P))).
-Qed.
+Proof. exact same_instant_fifo_all_proof. Qed.
 Print Assumptions same_instant_fifo.
 
 (* KNOWN FINDING (KNOWN_FINDINGS.txt cross-clock-before-fifo).  The full statement "processes that become
@@ -86,7 +79,7 @@ Theorem same_instant_fifo_cross_clock_before_refuted :
   exists l1 e l2 e' l3 t ph mt i t' i',
     res_log (simulate cfg_two_1hz procs_cross false 2 [] 2000) = l1 ++ e :: l2 ++ e' :: l3 /\
     ev_wake e = Some (t, ph, mt, i) /\ ev_wake e' = Some (t', ph, mt, i') /\ (t == t')%Q /\ (i' < i)%N.
-Proof. exact (fifo_inverted_sound _ (proj1 cross_clock_before_inverted)). Qed.
+Proof. exact cross_clock_before_witness. Qed.
 Print Assumptions same_instant_fifo_cross_clock_before_refuted.
 
 (* ---------------------------------------------------------------- WaitFor, WaitChange *)
@@ -159,16 +152,7 @@ Theorem before_sees_old_and_is_captured : forall cfg procs fiber until tb fuel,
      | PB, CA => c_two cfg = false -> rb = Some v
      | PA, CB => True
      end).
-Proof.
-  exact (fun cfg procs fiber until tb fuel =>
-    conj (fun pre t mt ro pid a old E =>
-            before_during_precede_edges_proof cfg procs fiber until tb fuel pre t BEFORE mt ro pid a old E
-              (fun H => match H in (_ = y) return (match y with BEFORE => True | _ => False end) with eq_refl => I end))
-    (conj (fun pre t k rising ra ra2 rb mid tw mtw ro pid p v old E =>
-            write_outside_during_evaluated_proof cfg procs fiber until tb fuel pre t k rising ra ra2 rb mid tw BEFORE mtw ro pid p v old E
-              (fun H => match H in (_ = y) return (match y with BEFORE => True | _ => False end) with eq_refl => I end))
-          (before_write_captured_proof cfg procs fiber until tb fuel))).
-Qed.
+Proof. exact before_sees_old_and_is_captured_proof. Qed.
 Print Assumptions before_sees_old_and_is_captured.
 
 (* DURING.  (1) Whatever a process does in phase DURING of time t happens before any clock flank of time t is
@@ -185,15 +169,7 @@ Theorem during_sees_old_not_captured : forall cfg procs fiber until tb fuel,
      ~ In LReeval mid /\
      (ra, ra2, rb) = edge_regs (c_two cfg) k rising (mid ++ LProc tw DURING mtw ro pid (AWrite p v) :: old) /\
      after_reeval (mid ++ LProc tw DURING mtw ro pid (AWrite p v) :: old) = after_reeval old).
-Proof.
-  exact (fun cfg procs fiber until tb fuel =>
-    conj (fun pre t mt ro pid a old E =>
-            before_during_precede_edges_proof cfg procs fiber until tb fuel pre t DURING mt ro pid a old E
-              (fun H => match H in (_ = y) return (match y with DURING => True | _ => False end) with eq_refl => I end))
-         (fun pre t k rising ra ra2 rb mid tw mtw ro pid p v old E Eq =>
-            conj (during_write_not_evaluated_proof cfg procs fiber until tb fuel pre t k rising ra ra2 rb mid tw mtw ro pid p v old E Eq)
-                 (during_write_not_captured_proof cfg procs fiber until tb fuel pre t k rising ra ra2 rb mid tw mtw ro pid p v old E Eq))).
-Qed.
+Proof. exact during_sees_old_not_captured_proof. Qed.
 Print Assumptions during_sees_old_not_captured.
 
 (* AFTER.  A process resumed by WaitClock(c, AFTER) at time t runs after the registers of c have advanced at t;
@@ -246,7 +222,7 @@ Print Assumptions handoff_mutex.
 Theorem handoff_fiber_parked_while_simulator_runs :
   (forall s, reachable s -> main_user s = true -> fiber_in_wait s = true \/ pf s = FLoop \/ pf s = FCheckTerm) /\
   (exists s, reachable s /\ main_user s = true /\ pf s = FCheckTerm).
-Proof. exact (conj fiber_active_while_main_user_proof spurious_state_reachable). Qed.
+Proof. exact handoff_fiber_parked_proof. Qed.
 Print Assumptions handoff_fiber_parked_while_simulator_runs.
 
 (* no deadlock / no lost wake-up: every reachable state that is not the final one has a step that is not a
